@@ -207,10 +207,10 @@ Section Ratio.
     rewrite HD, Hg, !Hcm by assumption. reflexivity.
   Qed.
 
-  Theorem ratio_one_lmds_partial_lemma N d lm (dist W : mat F) (w s : vec F) ws :
+  Theorem ratio_one_lmds_partial_lemma N d keep lm (dist W : mat F) (w s : vec F) ws :
     Permutation lm (seq 0 N) ->
     (forall a b, a < N -> b < N -> dist a b = dist b a) ->
-    lmds_embed N d lm dist W w s = LOk ws ->
+    lmds_embed N d keep lm dist W w s = LOk ws ->
     let Wp : mat F := fun a c => W (pos_of lm a) c in
     (exists Y0, mds_embed N d Wp w s = LOk Y0 /\
                 forall a, a < N -> last_write ws a = Some (mrow Y0 a)) /\
@@ -219,8 +219,8 @@ Section Ratio.
   Proof.
     intros HP Hsym H Wp.
     destruct (perm_facts lm N HP) as [Hlen [Hnd [Hlt [Hpos Hlmk]]]].
-    destruct (lmds_embed_inv _ _ _ _ _ _ _ _ H) as [_ [Hd Ht]]. rewrite Hlen in Hd, Ht.
-    destruct (triangulate_trace _ _ _ _ _ _ _ _ Hnd Ht) as [_ [_ [H3 _]]].
+    destruct (lmds_embed_inv _ _ _ _ _ _ _ _ _ H) as [_ [Hd Ht]]. rewrite Hlen in Hd, Ht.
+    destruct (triangulate_trace _ _ _ _ _ _ _ _ _ Hnd Ht) as [_ [_ [H3 _]]].
     split.
     - exists (scale_by (sel_vecs N d Wp) s). split.
       + unfold mds_embed, select_largest. apply Nat.leb_le in Hd. rewrite Hd. reflexivity.
